@@ -80,6 +80,99 @@ def kind_of(s):
     return s.get('type', 'basic')
 
 
+STATE_KEYS = {'name', 'type', 'on entry', 'on exit', 'states', 'parallel states', 'initial', 'memory', 'transitions', 'contract'}
+TRANS_KEYS = {'target', 'event', 'guard', 'action', 'contract', 'priority'}
+
+
+def doc_invalid(d):
+    """Reference validator over the *document* (independent of sismic): a reason if the document breaks one of the rules the
+    statement lists, None if it breaks none of them (the shapes the statement leaves open - see ASSUMPTIONS - are not judged).
+    Used to tell whether the faults of a multi-fault document cancelled each other."""
+    if not isinstance(d, dict) or set(d) != {'statechart'}:
+        return 'top level'
+    sc = d['statechart']
+    if not isinstance(sc, dict):
+        return 'statechart section is not a mapping'
+    if set(sc) - {'name', 'description', 'preamble', 'root state'}:
+        return 'unknown key in statechart section'
+    if 'name' not in sc or 'root state' not in sc:
+        return 'statechart lacks a name or a root state'
+    names = []
+    info = {}
+
+    def contract(c):
+        if not isinstance(c, list):
+            return 'contract is not a list'
+        for it in c:
+            if not isinstance(it, dict) or not it or set(it) - {'before', 'after', 'always'}:
+                return 'contract item'
+        return None
+
+    def state(s, parent):
+        if not isinstance(s, dict):
+            return 'state is not a mapping'
+        if set(s) - STATE_KEYS:
+            return 'unknown key in state'
+        if 'name' not in s:
+            return 'state without name'
+        if 'type' in s and s['type'] not in ('final', 'shallow history', 'deep history'):
+            return 'unknown type'
+        if 'states' in s and 'parallel states' in s:
+            return 'both states and parallel states'
+        for k in ('states', 'parallel states', 'transitions'):
+            if k in s and not isinstance(s[k], list):
+                return '%s is not a list' % k
+        if 'contract' in s:
+            r = contract(s['contract'])
+            if r:
+                return r
+        n = str(s['name'])
+        names.append(n)
+        kids = list(s.get('states', [])) + list(s.get('parallel states', []))
+        info[n] = dict(s=s, parent=parent, kids=[str(c['name']) for c in kids if isinstance(c, dict) and 'name' in c],
+                       compound=bool(s.get('states')), orth=bool(s.get('parallel states')))
+        for t in s.get('transitions', []):
+            if not isinstance(t, dict):
+                return 'transition is not a mapping'
+            if set(t) - TRANS_KEYS:
+                return 'unknown key in transition'
+            if 'priority' in t and t['priority'] not in ('high', 'low'):
+                try:
+                    int(t['priority'])
+                except (TypeError, ValueError):
+                    return 'priority'
+            if 'contract' in t:
+                r = contract(t['contract'])
+                if r:
+                    return r
+        for c in kids:
+            r = state(c, n)
+            if r:
+                return r
+        return None
+    r = state(sc['root state'], None)
+    if r:
+        return r
+    if len(names) != len(set(names)):
+        return 'duplicate names'
+    for n, i in info.items():
+        s = i['s']
+        tp = s.get('type')
+        if tp in ('shallow history', 'deep history'):
+            if i['parent'] is None or not info[i['parent']]['compound']:
+                return 'history state outside a compound state'
+            if 'memory' in s and (str(s['memory']) == n or str(s['memory']) not in info[i['parent']]['kids']):
+                return 'memory'
+        if tp in ('final', 'shallow history', 'deep history') and s.get('transitions'):
+            return 'transitions on a state that may not own any'
+        if i['compound'] and 'initial' in s and str(s['initial']) not in i['kids']:
+            return 'initial is not a direct child'
+        for t in s.get('transitions', []):
+            if 'target' in t and str(t['target']) not in info:
+                return 'unknown target'
+    return None
+
+
 def single_faults(doc):
     """yield (label, state kind, position, fn) – fn(mutable doc copy) applies the fault in place."""
     root = doc['statechart']['root state']
@@ -118,7 +211,7 @@ def single_faults(doc):
             near = nm + ' ' if not nm.endswith(' ') else nm.strip() + '_'
             if near not in names:
                 yield ('near-miss target', kind, idx, at(addt({'target': near})))
-            yield ('priority word', kind, idx, at(addt({'event': 'e', 'priority': 'urgent'})))
+            yield ('priority word', kind, idx, at(addt({'event': 'e', 'priority': ('urgent', 'High', 'LOW', 'high ', '')[idx % 5]})))
             yield ('priority list', kind, idx, at(addt({'event': 'e', 'priority': [1]})))
             yield ('priority mapping', kind, idx, at(addt({'event': 'e', 'priority': {'a': 1}})))
             yield ('unknown key transition', kind, idx, at(addt({'event': 'e', 'bogus': 1})))
@@ -299,10 +392,18 @@ def judge(acc, d2, applied, wit):
         acc.count('permissive_import_of_same_text_first')
     verdict, res = try_import(text)
     labels = [a[0] for a in applied]
+    why = doc_invalid(d2)
+    if why is None:
+        if len(applied) == 1:
+            acc.note_inconclusive('fault %r produced a document the reference validator finds nothing wrong with' % (applied[0],))
+            return True
+        # the faults of a combination cancelled each other (two renames that swap names...): nothing to demand
+        acc.count('multi_fault_documents_that_cancelled_out')
+        return True
     if verdict == 'accepted':
         s = sound(res)
-        acc.violation('C12:faulty-document-accepted', 'document with fault(s) %r was accepted (soundness checker on the result: %s)'
-                      % (labels, s), dict(wit, faults=applied, faulted=text[:4000]))
+        acc.violation('C12:faulty-document-accepted', 'document with fault(s) %r (reference validator: %s) was accepted (soundness checker on the result: %s)'
+                      % (labels, why, s), dict(wit, faults=applied, faulted=text[:4000]))
         return False
     if verdict == 'other':
         acc.violation('C12:wrong-exception-type', 'document with fault(s) %r raised %s (%s) instead of StatechartError'
